@@ -41,7 +41,7 @@ ASSUMPTIONS = [
     "Links.from_vector on wrapped deltas is only required for w,h >= 3 "
     "(documented limitation for 2xN systems)",
 ]
-FLOORS = {"torus_length": 1000, "torus_vector": 1000, "ldf_walk": 1000,
+FLOORS = {"ldf_one_sided_wrap": 5000, "mesh_huge_coordinates": 4, "torus_beyond_double_precision": 100, "torus_length": 1000, "torus_vector": 1000, "ldf_walk": 1000,
           "mesh": 500, "hexagon_ring": 5, "hexagon_abandoned_search": 5,
           "large_torus_pair": 3000,
           "links": 6}
@@ -154,7 +154,11 @@ def run(case, ctx):
 
 
 def walk_ldf(ctx, ru, Links, v, start, w, h, dst, where):
-    p = ru.longest_dimension_first(v, start, w, h)
+    if (w is None) != (h is None) and (start[0] + start[1]) % 2:
+        p = ru.longest_dimension_first(v, start, **(
+            dict(width=w) if h is None else dict(height=h)))
+    else:
+        p = ru.longest_dimension_first(v, start, w, h)
     ctx.hit("ldf_walk")
     cur = start
     hops = sum(abs(c) for c in v)
@@ -270,6 +274,15 @@ def run_torus(case, ctx, g, Links, ru):
                     check((ex, ey) == dst2d, "torus-vector-destination",
                           "vector %r leads to %r" % (v, (ex, ey)), **where)
                     walk_ldf(ctx, ru, Links, v, (sx, sy), w, h, dst2d, where)
+                    if (sx + sy + x + y) % 3 == 0:
+                        # wrapping on one axis only (a cylinder): each of
+                        # width / height may be None on its own
+                        ux, uy = sx + v[0] - v[2], sy + v[1] - v[2]
+                        ctx.hit("ldf_one_sided_wrap")
+                        walk_ldf(ctx, ru, Links, v, (sx, sy), w, None,
+                                 (ux % w, uy), dict(where, wrap="x only"))
+                        walk_ldf(ctx, ru, Links, v, (sx, sy), None, h,
+                                 (ux, uy % h), dict(where, wrap="y only"))
     # neighbour deltas map back to the link taken (w, h >= 3)
     if w >= 3 and h >= 3:
         for x in range(w):
